@@ -376,6 +376,22 @@ fn file_segment(r: &mut StdRng, seg: &str, full: &[u8]) -> Vec<u8> {
             let a = text.replacen("\"success_count\": 1", "\"success_count\": 4294967295", 2);
             a.replacen("\"failure_count\": 0", "\"failure_count\": 4294967295", 2).into_bytes()
         }
+        "tmax" | "tnear" | "tday" | "tu64" => {
+            let v = match seg { "tmax" => "9223372036854775807", "tnear" => "9223372036854775806", "tday" => "9223372036854689408", _ => "18446744073709551615" };
+            // replace the number after every "secs_since_epoch":
+            let pat = "\"secs_since_epoch\": ";
+            let mut out = String::new();
+            let mut rest = text.as_str();
+            while let Some(i) = rest.find(pat) {
+                out.push_str(&rest[..i + pat.len()]);
+                out.push_str(v);
+                let tail = &rest[i + pat.len()..];
+                let n = tail.find(|c: char| !c.is_ascii_digit()).unwrap_or(tail.len());
+                rest = &tail[n..];
+            }
+            out.push_str(rest);
+            out.into_bytes()
+        }
         "wrongtype" => {
             let opts = [
                 text.replacen("\"success_count\": 1", "\"success_count\": \"1\"", 1),
